@@ -272,3 +272,20 @@ CHECKS["C11"] = {
     "technique": "contract-based deductive verification: symbolic execution of the real event registry, set_backend and every _precompute along bounded switch/create/collect histories, representation invariant 'old object state == fresh object state' discharged structurally and by z3; native replay on real backends",
 }
 NOT_APPLICABLE.pop("C11", None)
+
+CHECKS["C15"] = {
+    "category": "proof",
+    "text": ("The likelihood side of the statement, as lemmas over the real pipeline: for base skeletons and the rewrites reorder / rename / add a zero-yield "
+             "sample / add a no-op normsys and histosys / split a channel's bins into two channels / merge two samples with identical modifiers / rescale "
+             "the signal by k (and pairwise compositions) the REAL Model.__init__ -> expected_data / logpdf code is executed symbolically on the skeleton "
+             "and on its rewritten form in one run, with parameters identified by name and data by channel and bin over one set of canonical symbols. "
+             "Proved for all numbers, entry by entry: expected data and constraint widths agree, logpdf' == logpdf (plus exactly the added unit-Gaussian "
+             "terms for the no-op systematics; at mu/k for the rescaling), same POI, suggested init / bounds / fixed flags correspond. Frame obligation: "
+             "the inference functions under contract in C05, C06, C08, C09 read the model only through logpdf / expected_data / make_pdf and the "
+             "configuration accessors. From these the invariances of the statement follow for exact optimisation. NOT decided: agreement beyond fit "
+             "tolerance, between scipy and minuit, and across backends (external minimisers, floating point)."),
+    "note": ("structure bounded by three base skeletons x the listed rewrites; trusted axiom: the code-4 core polynomial of a triple with down == nominal == up "
+             "vanishes; the step from equal likelihoods to equal inference results assumes exact optimisation"),
+    "technique": "contract-based deductive verification: relational lemmas - symbolic execution of the real model pipeline on a skeleton and its rewrite over shared canonical symbols, stepwise z3 proofs (rates, widths, log-density); attribute-read frame obligation over the inference contracts; native replay of the rewrite on concrete models",
+}
+NOT_APPLICABLE.pop("C15", None)
